@@ -99,31 +99,48 @@ def rules(ctx, tier):
 
 
 def recompute_shape(ctx, r):
-    """The recomputation assigns the counters from a pass over the key map (distinct hashes, sum of their sizes)."""
+    """The recomputation sets the counters from a pass over the key map (number of distinct hashes, sum of their sizes) -
+    by assigning the counter fields, or by building the counter struct as a whole."""
     prog = ctx.prog
     A = ctx.anchors
-    bodies = set()
-    for w in ctx.world.field_writes:
-        if w.rv["k"] in ("use", "cast") and w.body.path not in ctx.role_bodies() and "Stats" in w.field[1] and \
-                not c02.is_incremental_update(ctx, w):
-            bodies.add(w.body.path)
-    for p in sorted(bodies):
-        b = prog.bodies[p]
-        if b.argc < 1 or prog.adt_of(b.locals[1])[0] != A.get("STATE"):
+    counter_structs, stat_fields, stat_structs = ctx.stat_model()
+    fam = ctx.apply_family()
+    int_fields = {}
+    for cs in counter_structs:
+        int_fields[cs] = [f["name"] for f in prog.adts[cs]["variants"][0]["fields"]
+                          if prog.ty_str(f["ty"]) in ("u64", "usize", "u32", "i64")]
+    cands = []      # (body, counter struct, {field: leaves}, slicer)
+    for b in prog.bodies.values():
+        if b.path in fam or b.raw.get("impl_trait") in ("std::default::Default", "std::clone::Clone"):
             continue
-        reads_keymap = any(ANCHOR_FIELDS.get(cu.field) == "KEYMAP" and not cu.mutable and cu.site.body.path == p
-                           for cu in ctx.world.container_uses)
-        sl = Slicer(ctx.world, b)
-        srcs = {}
+        sl = None
+        by_struct = {}
         for w in ctx.world.field_writes:
-            if w.body.path == p and w.rv["k"] in ("use", "cast"):
-                srcs[w.field[2]] = sl.leaves_of_operand(w.rv["op"])
-        uniq = [k for k in srcs if "unique" in k or "blobs" in k]
-        byts = [k for k in srcs if "bytes" in k and "serialized" not in k]
-        ok = reads_keymap and bool(uniq) and bool(byts)
-        if ok:
-            ok = any(l[0] == "call" and (l[1].endswith("::len") or l[1].endswith("::count")) for l in srcs[uniq[0]]) and \
-                any(l[0] == "call" and l[1].endswith("::sum") for l in srcs[byts[0]])
+            if w.body.path == b.path and w.field[1] in counter_structs and w.rv["k"] in ("use", "cast") and \
+                    w.field[2] in int_fields[w.field[1]] and not c02.is_incremental_update(ctx, w):
+                sl = sl or Slicer(ctx.world, b)
+                by_struct.setdefault(w.field[1], {})[w.field[2]] = sl.leaves_of_operand(w.rv["op"])
+        for bb in b.normal_blocks():
+            for st in b.stmts(bb):
+                if st["k"] == "assign" and st["rv"]["k"] == "agg" and st["rv"].get("def") in counter_structs:
+                    sl = sl or Slicer(ctx.world, b)
+                    rv = st["rv"]
+                    vals = dict((fn, sl.leaves_of_operand(op)) for fn, op in zip(rv.get("fields") or [], rv["ops"])
+                                if fn in int_fields[rv["def"]])
+                    if vals and not all(all(l[0] == "const" for l in lv) for lv in vals.values()):
+                        by_struct.setdefault(rv["def"], {}).update(vals)
+        for cs, srcs in by_struct.items():
+            cands.append((b, cs, srcs, sl))
+    for (b, cs, srcs, sl) in cands:
+        p = b.path
+        readers = [p] + [c.body.path for (c, how) in prog.callers_index().get(p, []) if how == "direct"]
+        reads_keymap = any(ANCHOR_FIELDS.get(cu.field) == "KEYMAP" and not cu.mutable and cu.site.body.path in readers
+                           for cu in ctx.world.container_uses)
+        is_len = lambda lv: any(l[0] == "call" and (l[1].endswith("::len") or l[1].endswith("::count")) for l in lv)
+        is_sum = lambda lv: any(l[0] == "call" and l[1].endswith("::sum") for l in lv)
+        uniq = [k for k in srcs if is_len(srcs[k])]
+        byts = [k for k in srcs if is_sum(srcs[k]) and k not in uniq]
+        ok = reads_keymap and len(uniq) >= 1 and len(byts) >= 1 and set(int_fields[cs]) <= set(srcs)
         if ok:
             # distinct blobs are told apart by their hash: the container whose size is the distinct count is keyed by
             # the hash type, or a list sorted and de-duplicated by the same hash component
@@ -137,6 +154,8 @@ def recompute_shape(ctx, r):
                 "%s derives the counters from one pass over the key map (distinct count, sum of sizes)" % p,
                 "%s does not derive both counters from the key map (%s)" % (
                     p, {k: sorted(fmt_leaf(l) for l in v) for k, v in srcs.items()}))
+    if not cands:
+        r.bad("recompute-shape", None, "no function sets the blob statistics from scratch (only increments exist)")
 
 
 def _distinct_by_hash(ctx, b, sl, leaves):
